@@ -167,6 +167,84 @@ def fold_value(module, node, env=None, numeric=False):
     raise Unsupported('not a literal: %s' % ast.unparse(node)[:60], node, module.relpath)
 
 
+def fold_table(module, node, env=None):
+    """[(key, Num, source node)] of a numeric table written as a dict display, including the entries it unpacks with
+    ``**``: a dict comprehension over literal tuples (keys from f-strings / names, values arithmetic over the loop
+    variables and module constants), ``dict.fromkeys(<literal keys>, <number>)`` or another display"""
+    env = dict(env or {})
+    out = []
+
+    def lit(e, names):
+        # a loop source element: strings stay strings, numbers become Num (with the rounding of their token)
+        if isinstance(e, ast.Constant) and isinstance(e.value, str):
+            return e.value
+        if isinstance(e, (ast.Tuple, ast.List)):
+            return [lit(x, names) for x in e.elts]
+        return fold_num(module, e, dict(env, **{k: v for k, v in names.items() if isinstance(v, Num)}))
+
+    def text(e, names):
+        if isinstance(e, ast.Constant) and isinstance(e.value, str):
+            return e.value
+        if isinstance(e, ast.Name) and isinstance(names.get(e.id), str):
+            return names[e.id]
+        if isinstance(e, ast.JoinedStr):
+            parts = []
+            for v in e.values:
+                if isinstance(v, ast.Constant):
+                    parts.append(v.value)
+                elif isinstance(v, ast.FormattedValue) and v.format_spec is None and v.conversion == -1:
+                    parts.append(text(v.value, names))
+                else:
+                    raise Unsupported('formatted key in a table', e, module.relpath)
+            return ''.join(parts)
+        if isinstance(e, ast.BinOp) and isinstance(e.op, ast.Add):
+            return text(e.left, names) + text(e.right, names)
+        if isinstance(e, ast.Call) and isinstance(e.func, ast.Attribute) and e.func.attr == 'format' \
+                and isinstance(e.func.value, ast.Constant) and not e.keywords:
+            return e.func.value.value.format(*[text(a, names) for a in e.args])
+        raise Unsupported('key of a table entry is not a literal string', e, module.relpath)
+
+    def bind(target, val, names):
+        if isinstance(target, ast.Name):
+            names[target.id] = val
+        elif isinstance(target, (ast.Tuple, ast.List)) and isinstance(val, list) and len(val) == len(target.elts):
+            for t, v in zip(target.elts, val):
+                bind(t, v, names)
+        else:
+            raise Unsupported('loop target in a table comprehension', target, module.relpath)
+
+    def comp(c, gens, names):
+        if not gens:
+            nm = {k: v for k, v in names.items() if isinstance(v, Num)}
+            out.append((text(c.key, names), fold_num(module, c.value, dict(env, **nm)), c.value))
+            return
+        g = gens[0]
+        if g.ifs or g.is_async or not isinstance(g.iter, (ast.Tuple, ast.List)):
+            raise Unsupported('table comprehension over something other than a literal sequence', c, module.relpath)
+        for e in g.iter.elts:
+            n2 = dict(names)
+            bind(g.target, lit(e, names), n2)
+            comp(c, gens[1:], n2)
+
+    def walk(d):
+        for k, v in zip(d.keys, d.values):
+            if k is not None:
+                out.append((fold_value(module, k), fold_num(module, v, env), v))
+            elif isinstance(v, ast.Dict):
+                walk(v)
+            elif isinstance(v, ast.DictComp):
+                comp(v, list(v.generators), {})
+            elif isinstance(v, ast.Call) and ast.unparse(v.func) == 'dict.fromkeys' and len(v.args) == 2 \
+                    and isinstance(v.args[0], (ast.Tuple, ast.List)):
+                num = fold_num(module, v.args[1], env)
+                for e in v.args[0].elts:
+                    out.append((fold_value(module, e), num, v.args[1]))
+            else:
+                raise Unsupported('entries unpacked into a table from %s' % ast.unparse(v)[:50], v, module.relpath)
+    walk(node)
+    return out
+
+
 def dict_literal_items(node):
     """[(key node, value node)] of a dict literal; Unsupported on ** unpacking."""
     if not isinstance(node, ast.Dict):
@@ -177,6 +255,8 @@ def dict_literal_items(node):
 def duplicate_keys(module, node):
     seen, dups = set(), []
     for k in node.keys:
+        if k is None:
+            continue
         try:
             kv = fold_value(module, k)
         except Unsupported:
